@@ -715,6 +715,15 @@ func controller(args map[string]string) error {
 				w.Emit(e.snapshot("Foreign", int(r), 0, trace.Ev{"what": "split"}))
 			case k < 96:
 				x := pick(func(o *ctlOp) bool { return o.op.Status() == operator.STARTED })
+				if rng.Intn(3) == 0 {
+					// a late remove through a stale handle: an operator that has ended while another one runs on its region
+					if y := pick(func(o *ctlOp) bool {
+						cur := e.oc.GetOperator(o.op.RegionID())
+						return operator.IsEndStatus(o.op.Status()) && cur != nil && cur != o.op
+					}); y != 0 {
+						x = y
+					}
+				}
 				if x == 0 {
 					continue
 				}
